@@ -198,8 +198,27 @@ let handle_ecies f =
      | _ -> if mc = "!" then "mc=?" else "nokey")
   | _ -> failwith "ecies case"
 
+(* RFC 9180 test vector: the model alone against the constants of the RFC *)
+let handle_vector f =
+  match f with
+  | [_; _; suite; skE; pkR; skR; info; _; _; _; _] ->
+    let (k, d, a) = match String.split_on_char '.' suite with
+      | [k; d; a] -> (kem_of k, kdf_of d, aead_of a) | _ -> failwith "suite" in
+    let skE = unhex skE and pkR = unhex pkR and skR = unhex skR and info = unhex info in
+    let pk = hpke_pub k skR in
+    (match encap o_extract o_expand o_dh o_dh_pub o_mlkem_encap o_sha3 k pkR skE with
+     | Ok (ss, enc) ->
+       let ss2 = decap o_extract o_expand o_dh o_dh_pub o_mlkem_decap o_shake256 o_sha3 k enc skR in
+       (match key_schedule o_extract o_expand k d a ss info with
+        | Ok (key, bn) ->
+          "pk=" ^ hexo pk ^ "|enc=" ^ hexs enc ^ "|ss=" ^ hexs ss ^ "|ss2=" ^ hexo ss2 ^ "|key=" ^ hexs key ^ "|bn=" ^ hexs bn
+        | _ -> "schedule-failed")
+     | _ -> "encap-failed")
+  | _ -> failwith "vector case"
+
 let handle line =
   match String.split_on_char '|' line with
   | "C06" :: "H" :: _ as f -> handle_hpke f
   | "C06" :: "E" :: _ as f -> handle_ecies f
+  | "C06" :: "V" :: _ as f -> handle_vector f
   | _ -> failwith "case"
